@@ -258,7 +258,7 @@ pub fn run_history(h: &History, which: Oracles, prop: &str) -> Result<RunStats, 
                     );
                 }
                 if let Some(e) = reader.io_error() {
-                    if Some(e.kind()) != fault_kind.map(|k| k.kind()) || e.to_string() != FAULT_MSG {
+                    if Some(e.kind()) != fault_kind.map(|k| k.kind()) || e.to_string() != FAULT_MSG || !crate::source::is_injected(e) {
                         bad!("io-error-kind", "step {} {:?}: parked error {:?} is not the injected one", $i, $op, e);
                     }
                 }
@@ -500,8 +500,8 @@ pub fn run_history(h: &History, which: Oracles, prop: &str) -> Result<RunStats, 
                 if which.window {
                     match (&r, m.error_parked) {
                         (Err(e), true) => {
-                            if Some(e.kind()) != fault_kind.map(|k| k.kind()) {
-                                bad!("check-io-error-kind", "step {} check_io_error returned {:?}, injected {:?}", i, e, fault_kind);
+                            if Some(e.kind()) != fault_kind.map(|k| k.kind()) || !crate::source::is_injected(e) {
+                                bad!("check-io-error-kind", "step {} check_io_error returned {:?}, not the error value the source returned ({:?})", i, e, fault_kind);
                             }
                             st.error_reported = true;
                         }
